@@ -34,7 +34,8 @@
    * `CPoll` = `poll()` called until it returns Pending; every `Poll::Ready(ev)` is an output.  Because the
      state persists between calls this is the `loop` of client.rs:436-508 with `return Poll::Ready(ev)` read
      as "emit ev; continue".  The loop is run with explicit fuel (`poll_fuel`, linear in the state); running
-     out is the distinguished output `OOutOfFuel` (proved unreachable: Client_proofs, `cpoll_fuel_enough`).
+     out is the distinguished output `OOutOfFuel` (proved unreachable: Client_proofs3 `cpoll_fuel_enough`,
+     Client_proofs4 `crun_never_out_of_fuel`).
    * CRelease on a call number that is not an outstanding, unreleased call is a no-op.  For a put call every
      result other than SFail means Ok(()).
    * Panic point: the `debug_assert!` of client.rs:303 -> `OPanic` (processing of that message stops). *)
